@@ -607,7 +607,46 @@ class Use(Expr):
 @dataclass
 class Var(Ref):""")
 
-RAW = [{"id": "ctx", "source": RAW_CTX, "start": "Expr", "names": ["Expr", "Literal", "Let", "Var"], "feats": ["raw"]},
+# a refinement that INJECTS a value into the production it creates; a production further down declares a field of the
+# same name with a refinement of its own (injected values are for the production they are given to)
+RAW_SCOPED = HEADER + '''
+from geneticengine.grammar.metahandlers.base import MetaHandlerGenerator
+
+class Scoped(MetaHandlerGenerator):
+    def __init__(self, width):
+        self.width = width
+    def generate(self, random, grammar, base_type, rec, dependent_values):
+        return rec(base_type, initial_values={"width": self.width})
+    def validate(self, v) -> bool:
+        return True
+
+@dataclass
+class Cell:
+    width: Annotated[int, IntRange(0, 3)]
+
+@dataclass
+class Row:
+    width: Annotated[int, IntRange(5, 9)]
+    first: Cell
+    rest: Annotated[list[Cell], ListSizeBetween(1, 2)]
+
+class Doc(ABC):
+    pass
+
+@dataclass
+class Table(Doc):
+    width: Annotated[int, IntRange(5, 9)]
+    row: Annotated[Row, Dependent("width", lambda width: Scoped(width))]
+
+@dataclass
+class Stack(Doc):
+    top: Doc
+    cell: Cell
+'''
+
+RAW = [{"id": "scoped", "source": RAW_SCOPED, "start": "Doc", "names": ["Doc", "Cell", "Row", "Table", "Stack"], "feats": ["raw"],
+        "reps": ["tree", "ge", "sge", "dsge"]},      # (the stack machine has no notion of injected values)
+       {"id": "ctx", "source": RAW_CTX, "start": "Expr", "names": ["Expr", "Literal", "Let", "Var"], "feats": ["raw"]},
        {"id": "ctx2", "source": RAW_CTX2, "start": "Expr", "names": ["Expr", "Literal", "Let", "Ref", "Use", "Var"],
         "feats": ["raw"]}]
 
@@ -619,7 +658,7 @@ def build_raw(raw) -> Built:
     exec(compile(raw["source"], f"<{name}>", "exec", dont_inherit=True), mod.__dict__)
     spec = {"id": raw["id"], "start": raw["start"],
             "classes": [{"name": n, "abstract": n == raw["start"], "parent": "", "fields": []} for n in raw["names"]],
-            "feats": raw.get("feats", [])}
+            "feats": raw.get("feats", []), "reps": raw.get("reps")}
     b = Built(spec, mod, raw["source"])
     b.raw = True
     return b
